@@ -105,7 +105,8 @@ func c12RunTask(t c12Task, depth, bound int, viol *[]drv.Violation) (uint64, int
 				ch := make([]int, i+1)
 				ch[i] = p
 				try(ch)
-				if bound >= 2 {
+				if bound >= 2 && len(hist) <= 3 {
+					// pairs of deviations for histories up to depth 3 (single deviations at the full depth)
 					for j := i + 1; j < len(perms); j++ {
 						for q := 1; q < perms[j]; q++ {
 							ch2 := make([]int, j+1)
@@ -168,7 +169,7 @@ func init() {
 
 	Registry["C12"] = func(t Tier) *Check {
 		chk := &Check{ID: "C12",
-			Rule:   "histories = all histories of the relation alphabet with two relation components, batch removal, Shrink, Reset and filter registration up to depth 3 (quick) / 4 (thorough) after 2 preludes with several two-relation tables; trace = issued handles, every entity's state, iteration order of three queries, Stats() after every operation. (i) binary built with the maprange overlay (every `range` over a map in package ecs, found by type-checking the current sources, iterates in an explorer-chosen order): for every history, every single deviation (quick) / pair of deviations (thorough) from ascending key order at every map range must leave the trace unchanged; (ii) the enumeration is sharded over 16 processes twice (different hash seeds), digest streams must agree between the two rounds and with an un-instrumented build; (iii) a second world fed the same history in the same process must produce the same trace; states = histories, non-trivial = histories in which at least one map range had >= 2 keys",
+			Rule:   "histories = all histories of the relation alphabet with two relation components, batch removal, Shrink, Reset and filter registration up to depth 3 (quick) / 4 (thorough) after 2 preludes with several two-relation tables; trace = issued handles, every entity's state, iteration order of three queries, Stats() after every operation. (i) binary built with the maprange overlay (every `range` over a map in package ecs, found by type-checking the current sources, iterates in an explorer-chosen order): for every history, every single deviation (quick, and thorough at depth 4) / pair of deviations (thorough, up to depth 3) from ascending key order at every map range must leave the trace unchanged; (ii) the enumeration is sharded over 16 processes twice (different hash seeds), digest streams must agree between the two rounds and with an un-instrumented build; (iii) a second world fed the same history in the same process must produce the same trace; states = histories, non-trivial = histories in which at least one map range had >= 2 keys",
 			Assume: []string{"the only sources of nondeterminism in package ecs are map iteration order and hash seeds (no goroutines, clocks or address-dependent logic); time-limited Shrink is excluded by contract"},
 		}
 		chk.Special = func(tier Tier, rep *engine.Report) error {
